@@ -289,7 +289,10 @@ def r_piecewise_cont(A, ctx, scope, rule="R-PIECEWISE-CONT"):
                 if not isinstance(var, ast.Name) or var.id in _names(rhs):
                     continue
                 bad, und = None, None
-                for tval in (0.5, 2.0, 3.25):
+                tvals = (0.5, 2.0, 3.25)
+                if isinstance(rhs, ast.Constant) and isinstance(rhs.value, (int, float)):
+                    tvals = (float(rhs.value),)      # a literal junction is its own witness
+                for tval in tvals:
                     for sgn in ((1, -1) if under_abs else (1,)):
                         env = {ast.unparse(rhs): tval, var.id: sgn * tval}
                         try:
@@ -343,6 +346,17 @@ def r_msgnames(A, ctx, scope, rule="R-MSGNAMES"):
                         have = set()
                         for a in call.args:
                             have |= _names(a)
+                        # a recorded name may have been built beforehand: follow local definitions
+                        for _ in range(4):
+                            more = set()
+                            for st2 in ast.walk(f.node):
+                                if isinstance(st2, ast.Assign):
+                                    tn = {x.id for t in st2.targets for x in ast.walk(t) if isinstance(x, ast.Name)}
+                                    if tn & have:
+                                        more |= _names(st2.value)
+                            if more <= have:
+                                break
+                            have |= more
                         miss = sorted(need - have)
                         ctx.ob(rule, f"{f.fq}::{ast.unparse(call)[:60]}", not miss,
                                what=f"{f.name}: the failed lookup `{ast.unparse(keys[0])}` depends on "
